@@ -40,6 +40,8 @@ def gen_cases(tier, seed):
             cfgd["linear"] = "MINRES"
         case = work.mk_case(fam, [seed, k], cfgd, gopts=({"n": int(rng.integers(1, 6))} if fam in ("QP", "NLP") else {}))
         case["y0"] = "rand" if rng.random() < 0.4 else "none"
+        if rng.random() < 0.2:
+            case["x0_out"] = True    # start outside the variable bounds
         case["mode"] = "enumerate"
         cases.append(case)
         k += 1
@@ -231,6 +233,7 @@ def run_case(case):
     positions = [("eval", c, k) for c in mon.COMPONENTS for k in range(counts[c])]
     positions += [("factor", None, k) for k in range(nfac)] + [("solve", None, k) for k in range(nsol)]
     bump("base_runs")
+    bump("base_runs_out_of_bounds_start", int(bool(case.get("x0_out"))))
     bump("positions_in_reference_runs", len(positions))
     if len(positions) > MAX_POSITIONS:
         # keep the enumeration complete per kind up to the cap; count what is dropped
